@@ -55,7 +55,8 @@ func (f *MemFile) Chdir() error {
 		return &fs.PathError{Op: op, Path: f.name, Err: err}
 	}
 
-	_ = f.vfs.SetCurDir(f.name)
+	// the name given to OpenFile may be relative or not clean.
+	_ = f.vfs.SetCurDir(f.absPath)
 
 	return nil
 }
